@@ -642,15 +642,26 @@ func c20throttleGraph(c *c20ctx, trailing bool) {
 			return d
 		}
 		vrt.SetKeyFn(func() string {
-			last := seqmc.Get(th, "last").Interface().(time.Time)
 			lr := int64(6)
-			if !last.IsZero() {
-				lr = rel(last.Sub(vrt.Epoch).Nanoseconds() / int64(unit))
+			if lv := seqmc.Get(th, "last"); lv.IsValid() {
+				if last, ok := lv.Interface().(time.Time); ok && !last.IsZero() {
+					lr = rel(last.Sub(vrt.Epoch).Nanoseconds() / int64(unit))
+				}
 			}
 			flags := ""
-			for _, f := range []string{"waiting", "pending", "stop", "trail", "trailing"} { // (fields a change may add show up through the generic dump below)
-				if v := seqmc.Get(th, f); v.IsValid() && v.Kind() == reflect.Bool {
-					flags += fmt.Sprintf("%s=%t ", f, v.Bool())
+			tv := reflect.ValueOf(th).Elem() // every boolean and small integer field of the private struct, whatever it is called
+			for i := 0; i < tv.NumField(); i++ {
+				switch f := tv.Field(i); f.Kind() {
+				case reflect.Bool:
+					flags += fmt.Sprintf("%s=%t ", tv.Type().Field(i).Name, f.Bool())
+				case reflect.Int, reflect.Int32, reflect.Int64, reflect.Uint32, reflect.Uint64:
+					if tv.Type().Field(i).Name != "duration" {
+						flags += fmt.Sprintf("%s=%v ", tv.Type().Field(i).Name, seqmc.Get(th, tv.Type().Field(i).Name))
+					}
+				case reflect.Struct:
+					if tv.Type().Field(i).Type.String() == "atomic.Bool" || strings.HasSuffix(tv.Type().Field(i).Type.String(), "atomic.Bool") {
+						flags += fmt.Sprintf("%s=%s ", tv.Type().Field(i).Name, seqmc.DumpValue(f))
+					}
 				}
 			}
 			return fmt.Sprintf("%slast-%d|perm-%d ob=%t c=%t", flags, lr, rel(mm.lastPerm), mm.obligation, mm.cancelled)
